@@ -352,10 +352,13 @@ func c10PathConsts(p *Prog, v ssa.Value, depth int, out map[string]bool) {
 // c10IngestCalls: calls in Storage.Push to the helper that creates the temporary file (role: reaches os.CreateTemp).
 func c10IngestCalls(push *ssa.Function) []ssa.CallInstruction {
 	var out []ssa.CallInstruction
-	for _, call := range Calls(push, func(string) bool { return true }) {
-		if g := StaticCallee(call); g != nil && g != push && inModule(g) && ErrResultIndex(g.Signature) >= 0 &&
-			reachesCall(g, 1, func(n string, _ ssa.CallInstruction) bool { return n == "os.CreateTemp" }) {
-			out = append(out, call)
+	// push's own body and, when its sequence is a table of step closures, the steps
+	for _, body := range c09StepBodies(push) {
+		for _, call := range Calls(body, func(string) bool { return true }) {
+			if g := StaticCallee(call); g != nil && g != push && inModule(g) && ErrResultIndex(g.Signature) >= 0 &&
+				reachesCall(g, 1, func(n string, _ ssa.CallInstruction) bool { return n == "os.CreateTemp" }) {
+				out = append(out, call)
+			}
 		}
 	}
 	return out
@@ -585,8 +588,26 @@ func c10R3StoragePush(c *Ctx, R3 string) {
 	}
 	tmp := ResultOf(ic, 0)
 	exp := c09DescObjOf(ic.Common().Args[1])
+	// the ingest call sits in a step closure: the descriptor is push's own variable, captured (and never reassigned)
+	if ld, isLd := ic.Common().Args[1].(*ssa.UnOp); isLd && ld.Op == token.MUL {
+		if fv, isFV := ld.X.(*ssa.FreeVar); isFV {
+			if bs := freeVarBindings(fv); len(bs) == 1 {
+				if a, isAlloc := bs[0].(*ssa.Alloc); isAlloc && a.Parent() == push && len(storesTo(a)) == 1 && len(closureWriters(a)) == 0 {
+					exp.cells[a] = true
+					exp.vals[storesTo(a)[0].Val] = true
+					for _, r := range *a.Referrers() {
+						if u, ok := r.(*ssa.UnOp); ok && u.Op == token.MUL && u.X == ssa.Value(a) {
+							exp.vals[u] = true
+						}
+					}
+				}
+			}
+		}
+	}
 	for _, rn := range renames {
-		ok := c09GuardedUp(c.P, rn.(ssa.Instruction), nil, ingested, 2)
+		ok := c09GuardedUp(c.P, rn.(ssa.Instruction), nil, ingested, 2) ||
+			// the rename is (in) a later step of the table whose earlier step returns nil only after a successful ingest
+			c09BehindStepSuccess(c.P, rn.(ssa.Instruction), func(call ssa.CallInstruction) bool { return call == ic }, 2)
 		c.Check(R3, pn+"|rename-after-successful-ingest", rn.Pos(), ok, ifelse(ok, "os.Rename into blobs/ is reached only on the nil edge of ingest's error", "a file can be renamed into blobs/ although writing/verifying it failed: a truncated or wrong blob becomes visible under its digest name"))
 		srcs, okS := c09Origins(c.P, rn.Common().Args[0], 2, push)
 		ok = tmp != nil && okS && len(srcs) > 0
